@@ -1,4 +1,5 @@
 import ESV.Comp.CgTop
+import ESV.Comp.CgSrcM
 /-
 `codegen_correct` for the fragment `CgProg`: every routine of the source program (language semantics) and of the labelled
 code the front end collects behave the same.  User labels: one induction over all labels of the program at once.
@@ -42,13 +43,173 @@ theorem mem_allRoutineLabels {bodies : List Stmts} {body : Stmts} (hb : body ∈
   simp only [Src.allRoutineLabels, List.mem_flatMap, List.mem_map]
   exact ⟨⟨some (toSrcStmts body)⟩, ⟨body, hb, rfl⟩, dfSStmts_sub _ n (dfs_sub body n hn)⟩
 
+theorem getElem?_lt' {α : Type} {l : List α} {i : Nat} {x : α} (h : l[i]? = some x) : i < l.length := by
+  rcases Nat.lt_or_ge i l.length with h' | h'
+  · exact h'
+  · rw [List.getElem?_eq_none h'] at h; cases h
+
+/-- the core: the routines compiled with the macros `cm`, given that macro calls are pieces -/
+theorem codegen_correct_core (lv : Nat) (p : Program) (cm : Macros) (t2 : Tables) (sF : St) (hlab : (labelIds t2.ops.flatten).Nodup)
+    (hseq : seqFrom p.routines 0 = true) (hall : ∀ r ∈ p.routines, cgStmts lv r.body = true)
+    (hml : ∀ r ∈ p.routines, ∀ n ∈ mlStmts r.body, n ∈ allDefs p)
+    (hr : compileRoutines cm p.routines 0 ⟨[], [], []⟩ St.init = .ok (t2, sF))
+    (hM : ∀ cx : Cx, cx.cm = cm → cx.sm = (toSrc p).macros → MacOK cx ((toSrc p).macros.length + 1)) (j : Nat) (r : Routine)
+    (hj : p.routines[j]? = some r) :
+    j < t2.ops.length ∧ ∃ e, (toSrc p).graph.entries[j]? = some (some e) ∧
+      Equivalent (toSrc p).graph.lts (labLTS t2.ops) e (labEntry t2.ops j) := by
+  -- the graph of the source program
+  have hrt : (toSrc p).routines = (p.routines.map (·.body)).map fun b => (⟨some (toSrcStmts b)⟩ : Src.Routine) := by
+    simp only [toSrc]
+    rw [placeRoutines_seq p.routines 0 [] hseq rfl]
+    simp
+  let fuel : Nat := (toSrc p).macros.length + 1
+  let b1 : Src.B := ⟨#[.halt evReturn]⟩
+  have hg : (toSrc p).graph = ⟨(((p.routines.map (·.body)).map fun b => (⟨some (toSrcStmts b)⟩ : Src.Routine)).foldl
+      (graphStep fuel (toSrc p).macros { labels := (Src.allocLabels b1 (Src.allRoutineLabels
+        ((p.routines.map (·.body)).map fun b => (⟨some (toSrcStmts b)⟩ : Src.Routine)))).2 } 0)
+        ((Src.allocLabels b1 (Src.allRoutineLabels ((p.routines.map (·.body)).map fun b => (⟨some (toSrcStmts b)⟩ : Src.Routine)))).1, [])).1.nodes,
+      (((p.routines.map (·.body)).map fun b => (⟨some (toSrcStmts b)⟩ : Src.Routine)).foldl
+      (graphStep fuel (toSrc p).macros { labels := (Src.allocLabels b1 (Src.allRoutineLabels
+        ((p.routines.map (·.body)).map fun b => (⟨some (toSrcStmts b)⟩ : Src.Routine)))).2 } 0)
+        ((Src.allocLabels b1 (Src.allRoutineLabels ((p.routines.map (·.body)).map fun b => (⟨some (toSrcStmts b)⟩ : Src.Routine)))).1, [])).2⟩ := by
+    simp only [Src.Program.graph]
+    rw [hrt]
+    rfl
+  obtain ⟨ainv, acov⟩ := allocLabels_spec b1 (Src.allRoutineLabels ((p.routines.map (·.body)).map fun b => (⟨some (toSrcStmts b)⟩ : Src.Routine)))
+  generalize hAL : Src.allocLabels b1 (Src.allRoutineLabels ((p.routines.map (·.body)).map fun b => (⟨some (toSrcStmts b)⟩ : Src.Routine))) = AL
+    at hg ainv acov
+  have hb1 : (tbl b1).length = 1 := rfl
+  let cx : Cx := { rs := t2.ops, N := (toSrc p).graph.nodes.toList, hlab := hlab, Z := fun i => 0 < i ∧ i < AL.2.length + 1, named := sF.named, defs := allDefs p, sm := (toSrc p).macros, cm := cm }
+  have hZ : ∀ i, cx.Z i → i < (tbl AL.1).length := by
+    intro i hi
+    have hi' : 0 < i ∧ i < AL.2.length + 1 := hi
+    rw [ainv.len, hb1]; omega
+  have henv : EnvOK cx ({ labels := AL.2 } : Src.Env) := ⟨fun n ps => (envOK_empty cx rfl).ev n ps, rfl, fun n i h => by
+    have := ainv.node n i h
+    show 0 < i ∧ i < AL.2.length + 1
+    rw [hb1] at this; omega⟩
+  have hM0 : MacOK cx fuel := hM cx rfl rfl
+  -- the front end's tables
+  have hruns : ∀ (j' : Nat) (r' : Routine), p.routines[j']? = some r' → ∃ its lb s1 ops s2, t2.ops[j']? = some its ∧ s1.loops = [] ∧
+      s1.cases = [] ∧ cStmts cm lb r'.body s1 = .ok (ops, s2) ∧ NamedLe s2 sF ∧
+      (its = ops ∨ ∃ o, its = ops ++ [.op ⟨o, Gen.op_dummy_end, []⟩]) := by
+    intro j' r' hj'
+    have := (compileRoutines_cg cm p.routines 0 _ _ _ _ hseq rfl rfl (fun r hr lb s ops s2 h =>
+      (cStmts_c cx fuel lv hM0 r.body lb (hall r hr) (hml r hr) _ henv s ops s2 h).stk) rfl rfl hr).2.2 j' r' hj'
+    simpa using this
+  -- every body's source translation only grows the table
+  have hgrow : ∀ body ∈ p.routines.map (·.body), ∀ k b,
+      Grow cx.Z b (Src.trStmts fuel (toSrc p).macros { labels := AL.2 } (toSrcStmts body) k b).1 :=
+    fun body _ k b => (trStmts_good' cx.Z fuel (toSrc p).macros (toSrcStmts body) _ henv.dense k b).1
+  obtain ⟨g1, _, paths⟩ := graph_fold fuel (toSrc p).macros { labels := AL.2 } 0 cx.Z (p.routines.map (·.body)) hgrow (AL.1, [])
+  have hN : cx.N = tbl (((p.routines.map (·.body)).map fun b => (⟨some (toSrcStmts b)⟩ : Src.Routine)).foldl
+      (graphStep fuel (toSrc p).macros { labels := AL.2 } 0) (AL.1, [])).1 := by
+    show (toSrc p).graph.nodes.toList = _
+    rw [hg]; rfl
+  have hlenAL : 0 < (tbl AL.1).length := by have := ainv.pushes.len; omega
+  have hN0 : cx.N[0]? = some (.halt evReturn) := by
+    rw [hN, g1.get (i := 0) (fun hz => by have hz' : 0 < 0 ∧ 0 < AL.2.length + 1 := hz; omega) hlenAL, ainv.pushes.same (by rw [hb1]; omega)]
+    rfl
+  -- the claim about all user labels of the program
+  let C : Nat → Nat → Prop := fun m jj => ∀ n id, n ∈ cx.defs → cx.named.lookup n = some id →
+    ∃ i, AL.2.lookup n = some i ∧ R2 cx m jj (target cx.rs (cx.cp.σ id)) i
+  -- one routine, given the claim at a level
+  have routineAt : ∀ (j' : Nat) (r' : Routine), p.routines[j']? = some r' → ∀ (bj : Src.B),
+      Grow cx.Z (Src.trStmts fuel (toSrc p).macros { labels := AL.2 } (toSrcStmts r'.body) 0 bj).1
+        (((p.routines.map (·.body)).map fun b => (⟨some (toSrcStmts b)⟩ : Src.Routine)).foldl
+          (graphStep fuel (toSrc p).macros { labels := AL.2 } 0) (AL.1, [])).1 →
+      Grow cx.Z AL.1 bj → ∀ m jj, C m jj →
+      R2 cx m jj ⟨j', 0⟩ (Src.trStmts fuel (toSrc p).macros { labels := AL.2 } (toSrcStmts r'.body) 0 bj).2 ∧
+      LabExport cx { labels := AL.2 } m jj bj (Src.trStmts fuel (toSrc p).macros { labels := AL.2 } (toSrcStmts r'.body) 0 bj).1 := by
+    intro j' r' hj' bj hfin hst m jj hC
+    obtain ⟨its, lb, s1, ops, s2, hits, hl1, hc1, hrun, hn2, hshape⟩ := hruns j' r' hj'
+    have hmem : r' ∈ p.routines := List.mem_of_getElem? hj'
+    have piece := cStmts_c cx fuel lv hM0 r'.body lb (hall r' hmem) (hml r' hmem) _ henv _ _ _ hrun
+    have hag : AgreeOn cx.N cx.Z bj (Src.trStmts fuel (toSrc p).macros { labels := AL.2 } (toSrcStmts r'.body) 0 bj).1 := by
+      refine ⟨fun i hz => Nat.lt_of_lt_of_le (hZ i hz) hst.len, fun i h1 h2 => ?_⟩
+      rw [hN]
+      exact hfin.get (fun hz => by have := hZ i hz; have := hst.len; omega) h2
+    have hplaced : Placed cx.cp cx.rs j' 0 ops := by
+      refine Placed.of_exact ?_ piece.nonone
+      rcases hshape with rfl | ⟨o, rfl⟩
+      · exact ⟨[], [], by simpa using hits, rfl⟩
+      · exact ⟨[], [.op ⟨o, Gen.op_dummy_end, []⟩], by simpa using hits, rfl⟩
+    have hex : ExitsOK cx m jj s1 { labels := AL.2 } :=
+      ⟨fun cl bl rest h => (by rw [hl1] at h; cases h), fun e rest h => (by rw [hc1] at h; cases h), hC, fun kr e h => by cases h⟩
+    refine piece.full j' 0 hplaced rfl 0 bj hag m jj hex hn2 (fun _ => ?_)
+    rcases hshape with rfl | ⟨o, rfl⟩
+    · exact R2.halt (lab_end hits (by simp)) (nodeStep_of hN0)
+    · have hit : ItemC cx.cp cx.rs ⟨j', 0 + ops.length⟩ (.op ⟨o, Gen.op_dummy_end, []⟩) :=
+        ⟨_, cpRel_id _ (fun root e => by cases e), by show itemAt t2.ops _ = _; simp [itemAt, hits]⟩
+      have hac : afterCtxL cx.rs ⟨j', 0 + ops.length⟩ = false := by
+        by_cases hne : ops = []
+        · subst hne; rfl
+        · exact afterCtxL_after hplaced hne piece.last
+      have hstep := lab_op hit dummy_facts.1 (.inr rfl)
+      simp only [dummy_facts.2.1, hac, Bool.not_false, Bool.and_self, if_true, List.map_nil, dummy_facts.2.2] at hstep
+      exact R2.halt hstep (nodeStep_of hN0)
+  -- all labels, by induction on the level
+  have hC : ∀ m jj, C m jj := by
+    refine lex_ind C (fun m jj lower lowerJ n id hn hid => ?_)
+    -- the node of the label
+    obtain ⟨r0, hr0, hn0⟩ := List.mem_flatMap.mp hn
+    have hcov := acov n (mem_allRoutineLabels (List.mem_map.mpr ⟨r0, hr0, rfl⟩) hn0)
+    obtain ⟨i, hlk⟩ := Option.isSome_iff_exists.mp hcov
+    obtain ⟨hi1, hi2, hph⟩ := ainv.node n i hlk
+    have hiAL : i < (tbl AL.1).length := by rw [ainv.len]; exact hi2
+    have hlow : ∀ m' j', m' < m → R2 cx m' j' (target cx.rs (cx.cp.σ id)) i := by
+      intro m' j' hlt
+      obtain ⟨i', h1, h2⟩ := lower m' j' hlt n id hn hid
+      rw [hlk] at h1; cases h1; exact h2
+    cases jj with
+    | zero => exact ⟨i, hlk, EE_of_lower hlow, GG_zero cx m _ _⟩
+    | succ jj =>
+      -- the node is set in the final table
+      obtain ⟨j0, hj0, hget0⟩ := List.getElem_of_mem hr0
+      have hj0' : p.routines[j0]? = some r0 := by rw [List.getElem?_eq_getElem hj0, hget0]
+      obtain ⟨bj0, _, hfin0, hst0⟩ := paths j0 r0.body (by simp [hj0'])
+      obtain ⟨kn0, hk0⟩ := (trStmts_good' cx.Z fuel (toSrc p).macros (toSrcStmts r0.body) _ henv.dense 0 bj0).2 (fun i' hz' => Nat.lt_of_lt_of_le (hZ i' hz') hst0.len) n
+        (dfs_sub r0.body n hn0) i hlk
+      obtain ⟨kn, hkn⟩ := hfin0.keeps_silent hk0
+      have hne : (tbl (((p.routines.map (·.body)).map fun b => (⟨some (toSrcStmts b)⟩ : Src.Routine)).foldl
+          (graphStep fuel (toSrc p).macros { labels := AL.2 } 0) (AL.1, [])).1)[i]? ≠ (tbl AL.1)[i]? := by
+        rw [hkn, hph]; simp [phNode]
+      obtain ⟨j1, body1, bj1, hb1', hst1, hfin1, heq1, hne1⟩ :=
+        graph_changer fuel (toSrc p).macros { labels := AL.2 } 0 cx.Z (p.routines.map (·.body)) hgrow (AL.1, []) i hiAL hne
+      obtain ⟨r1, hr1, rfl⟩ : ∃ r1, p.routines[j1]? = some r1 ∧ r1.body = body1 := by
+        simp only [List.getElem?_map, Option.map_eq_some_iff] at hb1'
+        exact hb1'
+      obtain ⟨_, hexp⟩ := routineAt j1 r1 hr1 bj1 hfin1 hst1 m jj (lowerJ jj (Nat.lt_succ_self jj))
+      obtain ⟨n', id', P, nm, hl', hid', hitem, hR⟩ := hexp i kn (Nat.lt_of_lt_of_le hiAL hst1.len) (by rw [heq1]; exact hkn) hne1
+      have hnn : n' = n := ainv.inj n' n i hl' hlk
+      subst hnn
+      have hidd : id' = id := by
+        have : cx.named.lookup n' = some id := hid
+        rw [hid'] at this; exact Option.some.inj this
+      subst hidd
+      have htg : target cx.rs (cx.cp.σ id') = P := by
+        obtain ⟨x', ⟨nm', rfl⟩, hit'⟩ := hitem
+        exact target_of_item hlab hit'
+      have hNi : cx.N[i]? = some (.silent kn) := by rw [hN]; exact hkn
+      refine ⟨i, hlk, EE_of_lower hlow, ?_⟩
+      rw [htg]
+      exact G.silB (lab_label hitem) (nodeStep_of hNi) hR.2
+  -- the routine asked for
+  obtain ⟨bj, hent, hfin, hst⟩ := paths j r.body (by simp [hj])
+  refine ⟨by obtain ⟨its, _, _, _, _, hits, _⟩ := hruns j r hj; exact getElem?_lt' hits, (Src.trStmts fuel (toSrc p).macros { labels := AL.2 } (toSrcStmts r.body) 0 bj).2, ?_, ?_⟩
+  · rw [hg]; simpa using hent
+  have hall_m : ∀ m, EE cx m ⟨j, 0⟩ (Src.trStmts fuel (toSrc p).macros { labels := AL.2 } (toSrcStmts r.body) 0 bj).2 :=
+    fun m => (routineAt j r hj bj hfin hst m 0 (hC m 0)).1.1
+  have heq : Equivalent (labLTS t2.ops) (nodeLTS cx.N) ⟨j, 0⟩ (Src.trStmts fuel (toSrc p).macros { labels := AL.2 } (toSrcStmts r.body) 0 bj).2 :=
+    E_sound hall_m
+  exact equivalent_of_step_eq (graph_step_eq _) heq.symm
+
 theorem codegen_correct_cg (lv : Nat) (p : Program) (t : Tables) (hp : CgProg lv p) (hf : frontend p = .ok t) (j : Nat) (r : Routine)
     (hj : p.routines[j]? = some r) :
     ∃ e, (toSrc p).graph.entries[j]? = some (some e) ∧
       Equivalent (toSrc p).graph.lts (labLTS t.ops) e (labEntry t.ops j) := by
   have hlab : (labelIds t.ops.flatten).Nodup := (frontend_wfl' p t (frontGuard_of_cg lv p hp) hf).2.1
   obtain ⟨hm, hseq, hall, hnd, hml⟩ := hp
-  have hmac : (toSrc p).macros = [] := by simp [toSrc, hm]
   -- the run of the front end
   unfold frontend at hf
   rw [hm] at hf
@@ -63,146 +224,6 @@ theorem codegen_correct_cg (lv : Nat) (p : Program) (t : Tables) (hp : CgProg lv
   rw [hr] at hf
   simp only [Except.ok.injEq] at hf
   subst hf
-  -- the graph of the source program
-  have hrt : (toSrc p).routines = (p.routines.map (·.body)).map fun b => (⟨some (toSrcStmts b)⟩ : Src.Routine) := by
-    simp only [toSrc]
-    rw [placeRoutines_seq p.routines 0 [] hseq rfl]
-    simp
-  let fuel : Nat := 1
-  let b1 : Src.B := ⟨#[.halt evReturn]⟩
-  have hg : (toSrc p).graph = ⟨(((p.routines.map (·.body)).map fun b => (⟨some (toSrcStmts b)⟩ : Src.Routine)).foldl
-      (graphStep fuel [] { labels := (Src.allocLabels b1 (Src.allRoutineLabels
-        ((p.routines.map (·.body)).map fun b => (⟨some (toSrcStmts b)⟩ : Src.Routine)))).2 } 0)
-        ((Src.allocLabels b1 (Src.allRoutineLabels ((p.routines.map (·.body)).map fun b => (⟨some (toSrcStmts b)⟩ : Src.Routine)))).1, [])).1.nodes,
-      (((p.routines.map (·.body)).map fun b => (⟨some (toSrcStmts b)⟩ : Src.Routine)).foldl
-      (graphStep fuel [] { labels := (Src.allocLabels b1 (Src.allRoutineLabels
-        ((p.routines.map (·.body)).map fun b => (⟨some (toSrcStmts b)⟩ : Src.Routine)))).2 } 0)
-        ((Src.allocLabels b1 (Src.allRoutineLabels ((p.routines.map (·.body)).map fun b => (⟨some (toSrcStmts b)⟩ : Src.Routine)))).1, [])).2⟩ := by
-    simp only [Src.Program.graph]
-    rw [hrt, hmac]
-    rfl
-  obtain ⟨ainv, acov⟩ := allocLabels_spec b1 (Src.allRoutineLabels ((p.routines.map (·.body)).map fun b => (⟨some (toSrcStmts b)⟩ : Src.Routine)))
-  generalize hAL : Src.allocLabels b1 (Src.allRoutineLabels ((p.routines.map (·.body)).map fun b => (⟨some (toSrcStmts b)⟩ : Src.Routine))) = AL
-    at hg ainv acov
-  have hb1 : (tbl b1).length = 1 := rfl
-  let cx : Cx := { rs := t2.ops, N := (toSrc p).graph.nodes.toList, hlab := hlab, Z := AL.2.length + 1, named := sF.named, defs := allDefs p }
-  have hZ : cx.Z = (tbl AL.1).length := by
-    show AL.2.length + 1 = _
-    rw [ainv.len, hb1]; omega
-  have henv : EnvOK cx ({ labels := AL.2 } : Src.Env) := ⟨rfl, rfl, fun n i h => by
-    have := ainv.node n i h
-    show 0 < i ∧ i < AL.2.length + 1
-    rw [hb1] at this; omega⟩
-  -- the front end's tables
-  have hruns : ∀ (j' : Nat) (r' : Routine), p.routines[j']? = some r' → ∃ its lb s1 ops s2, t2.ops[j']? = some its ∧ s1.loops = [] ∧
-      s1.cases = [] ∧ cStmts [] lb r'.body s1 = .ok (ops, s2) ∧ NamedLe s2 sF ∧
-      (its = ops ∨ ∃ o, its = ops ++ [.op ⟨o, Gen.op_dummy_end, []⟩]) := by
-    intro j' r' hj'
-    have := (compileRoutines_cg cx fuel lv p.routines 0 _ _ _ _ hseq rfl rfl hall hml rfl rfl (wrapAssert_ok hr)).2.2 j' r' hj'
-    simpa using this
-  -- every body's source translation only grows the table
-  have hgrow : ∀ body ∈ p.routines.map (·.body), ∀ k b,
-      Grow cx.Z b (Src.trStmts fuel [] { labels := AL.2 } (toSrcStmts body) k b).1 :=
-    fun body _ k b => (trStmts_good cx fuel (toSrcStmts body) _ henv k b).1
-  obtain ⟨g1, _, paths⟩ := graph_fold fuel [] { labels := AL.2 } 0 cx.Z (p.routines.map (·.body)) hgrow (AL.1, [])
-  have hN : cx.N = tbl (((p.routines.map (·.body)).map fun b => (⟨some (toSrcStmts b)⟩ : Src.Routine)).foldl
-      (graphStep fuel [] { labels := AL.2 } 0) (AL.1, [])).1 := by
-    show (toSrc p).graph.nodes.toList = _
-    rw [hg]; rfl
-  have hlenAL : 0 < (tbl AL.1).length := by have := ainv.pushes.len; omega
-  have hN0 : cx.N[0]? = some (.halt evReturn) := by
-    rw [hN, g1.get0 hlenAL, ainv.pushes.same (by rw [hb1]; omega)]
-    rfl
-  -- the claim about all user labels of the program
-  let C : Nat → Nat → Prop := fun m jj => ∀ n id, n ∈ cx.defs → cx.named.lookup n = some id →
-    ∃ i, AL.2.lookup n = some i ∧ R2 cx m jj (target cx.rs id) i
-  -- one routine, given the claim at a level
-  have routineAt : ∀ (j' : Nat) (r' : Routine), p.routines[j']? = some r' → ∀ (bj : Src.B),
-      Grow cx.Z (Src.trStmts fuel [] { labels := AL.2 } (toSrcStmts r'.body) 0 bj).1
-        (((p.routines.map (·.body)).map fun b => (⟨some (toSrcStmts b)⟩ : Src.Routine)).foldl
-          (graphStep fuel [] { labels := AL.2 } 0) (AL.1, [])).1 →
-      Grow cx.Z AL.1 bj → ∀ m jj, C m jj →
-      R2 cx m jj ⟨j', 0⟩ (Src.trStmts fuel [] { labels := AL.2 } (toSrcStmts r'.body) 0 bj).2 ∧
-      LabExport cx { labels := AL.2 } m jj bj (Src.trStmts fuel [] { labels := AL.2 } (toSrcStmts r'.body) 0 bj).1 := by
-    intro j' r' hj' bj hfin hst m jj hC
-    obtain ⟨its, lb, s1, ops, s2, hits, hl1, hc1, hrun, hn2, hshape⟩ := hruns j' r' hj'
-    have hmem : r' ∈ p.routines := List.mem_of_getElem? hj'
-    have piece := cStmts_c cx fuel lv r'.body lb (hall r' hmem) (hml r' hmem) _ henv _ _ _ hrun
-    have hag : AgreeOn cx.N cx.Z bj (Src.trStmts fuel [] { labels := AL.2 } (toSrcStmts r'.body) 0 bj).1 := by
-      refine ⟨by rw [hZ]; exact hst.len, fun i h1 h2 => ?_⟩
-      rw [hN]
-      exact hfin.get (by have := hst.len; rw [hZ]; omega) h2
-    have hplaced : Placed cx.rs j' 0 ops := by
-      rcases hshape with rfl | ⟨o, rfl⟩
-      · exact ⟨[], [], by simpa using hits, rfl⟩
-      · exact ⟨[], [.op ⟨o, Gen.op_dummy_end, []⟩], by simpa using hits, rfl⟩
-    have hex : ExitsOK cx m jj s1 { labels := AL.2 } :=
-      ⟨fun cl bl rest h => (by rw [hl1] at h; cases h), fun e rest h => (by rw [hc1] at h; cases h), hC⟩
-    refine piece.full j' 0 hplaced rfl 0 bj hag m jj hex hn2 (fun _ => ?_)
-    rcases hshape with rfl | ⟨o, rfl⟩
-    · exact R2.halt (lab_end hits (by simp)) (nodeStep_of hN0)
-    · have hit : itemAt cx.rs ⟨j', 0 + ops.length⟩ = some (.op ⟨o, Gen.op_dummy_end, []⟩) := by
-        have hp' : Placed cx.rs j' 0 (ops ++ [LItem.op ⟨o, Gen.op_dummy_end, []⟩]) := ⟨[], [], by simpa using hits, rfl⟩
-        exact hp'.item (d := ops.length) (by simp)
-      have hac : afterCtxL cx.rs ⟨j', 0 + ops.length⟩ = false := by
-        by_cases hne : ops = []
-        · subst hne; rfl
-        · exact afterCtxL_after hplaced hne piece.last
-      have hstep := lab_op hit dummy_facts.1
-      simp only [dummy_facts.2.1, hac, Bool.not_false, Bool.and_self, if_true, dummy_facts.2.2] at hstep
-      exact R2.halt hstep (nodeStep_of hN0)
-  -- all labels, by induction on the level
-  have hC : ∀ m jj, C m jj := by
-    refine lex_ind C (fun m jj lower lowerJ n id hn hid => ?_)
-    -- the node of the label
-    obtain ⟨r0, hr0, hn0⟩ := List.mem_flatMap.mp hn
-    have hcov := acov n (mem_allRoutineLabels (List.mem_map.mpr ⟨r0, hr0, rfl⟩) hn0)
-    obtain ⟨i, hlk⟩ := Option.isSome_iff_exists.mp hcov
-    obtain ⟨hi1, hi2, hph⟩ := ainv.node n i hlk
-    have hiAL : i < (tbl AL.1).length := by rw [ainv.len]; exact hi2
-    have hlow : ∀ m' j', m' < m → R2 cx m' j' (target cx.rs id) i := by
-      intro m' j' hlt
-      obtain ⟨i', h1, h2⟩ := lower m' j' hlt n id hn hid
-      rw [hlk] at h1; cases h1; exact h2
-    cases jj with
-    | zero => exact ⟨i, hlk, EE_of_lower hlow, GG_zero cx m _ _⟩
-    | succ jj =>
-      -- the node is set in the final table
-      obtain ⟨j0, hj0, hget0⟩ := List.getElem_of_mem hr0
-      have hj0' : p.routines[j0]? = some r0 := by rw [List.getElem?_eq_getElem hj0, hget0]
-      obtain ⟨bj0, _, hfin0, hst0⟩ := paths j0 r0.body (by simp [hj0'])
-      obtain ⟨kn0, hk0⟩ := (trStmts_good cx fuel (toSrcStmts r0.body) _ henv 0 bj0).2 (by rw [hZ]; exact hst0.len) n
-        (dfs_sub r0.body n hn0) i hlk
-      obtain ⟨kn, hkn⟩ := hfin0.keeps_silent hk0
-      have hne : (tbl (((p.routines.map (·.body)).map fun b => (⟨some (toSrcStmts b)⟩ : Src.Routine)).foldl
-          (graphStep fuel [] { labels := AL.2 } 0) (AL.1, [])).1)[i]? ≠ (tbl AL.1)[i]? := by
-        rw [hkn, hph]; simp [phNode]
-      obtain ⟨j1, body1, bj1, hb1', hst1, hfin1, heq1, hne1⟩ :=
-        graph_changer fuel [] { labels := AL.2 } 0 cx.Z (p.routines.map (·.body)) hgrow (AL.1, []) i hiAL hne
-      obtain ⟨r1, hr1, rfl⟩ : ∃ r1, p.routines[j1]? = some r1 ∧ r1.body = body1 := by
-        simp only [List.getElem?_map, Option.map_eq_some_iff] at hb1'
-        exact hb1'
-      obtain ⟨_, hexp⟩ := routineAt j1 r1 hr1 bj1 hfin1 hst1 m jj (lowerJ jj (Nat.lt_succ_self jj))
-      obtain ⟨n', id', P, nm, hl', hid', hitem, hR⟩ := hexp i kn (Nat.lt_of_lt_of_le hiAL hst1.len) (by rw [heq1]; exact hkn) hne1
-      have hnn : n' = n := ainv.inj n' n i hl' hlk
-      subst hnn
-      have hidd : id' = id := by
-        have : cx.named.lookup n' = some id := hid
-        rw [hid'] at this; exact Option.some.inj this
-      subst hidd
-      have htg : target cx.rs id' = P := target_of_item hlab hitem
-      have hNi : cx.N[i]? = some (.silent kn) := by rw [hN]; exact hkn
-      refine ⟨i, hlk, EE_of_lower hlow, ?_⟩
-      rw [htg]
-      exact G.silB (lab_label hitem) (nodeStep_of hNi) hR.2
-  -- the routine asked for
-  obtain ⟨bj, hent, hfin, hst⟩ := paths j r.body (by simp [hj])
-  refine ⟨(Src.trStmts fuel [] { labels := AL.2 } (toSrcStmts r.body) 0 bj).2, ?_, ?_⟩
-  · rw [hg]; simpa using hent
-  have hall_m : ∀ m, EE cx m ⟨j, 0⟩ (Src.trStmts fuel [] { labels := AL.2 } (toSrcStmts r.body) 0 bj).2 :=
-    fun m => (routineAt j r hj bj hfin hst m 0 (hC m 0)).1.1
-  have heq : Equivalent (labLTS t2.ops) (nodeLTS cx.N) ⟨j, 0⟩ (Src.trStmts fuel [] { labels := AL.2 } (toSrcStmts r.body) 0 bj).2 :=
-    E_sound hall_m
-  exact equivalent_of_step_eq (graph_step_eq _) heq.symm
+  exact (codegen_correct_core lv p [] t2 sF hlab hseq hall hml (wrapAssert_ok hr) (fun cx h1 _ => macOK_nil cx _ h1) j r hj).2
 
 end ESV.Comp
